@@ -63,6 +63,11 @@ Seipd2Inv(Cbits, Plens) ==
 Seipd1Plan(bs, plen) == [prefix_random |-> bs, prefix_repeat |-> 2, mdc_header |-> <<211, 20>>, mdc_hash |-> "sha1",
                          mdc_covers |-> bs + 2 + plen + 2, ctlen |-> bs + 2 + plen + 22, iv |-> "zero", resync |-> FALSE]
 
+(* legacy Symmetrically Encrypted Data (tag 9, RFC 9580 5.7 / RFC 4880 13.9): the same bs+2 octet prefix, then CFB is
+   re-synchronised: the remainder is encrypted with the ciphertext octets 2 .. bs+1 as the shift register; no MDC *)
+SedPlan(bs, plen) == [prefix_random |-> bs, prefix_repeat |-> 2, ctlen |-> bs + 2 + plen, iv |-> "zero", resync |-> TRUE,
+                      resync_iv_from |-> 2, resync_iv_to |-> bs + 2]
+
 (* ------------------------------------------------------------------------ *)
 (* SKESK (RFC 9580 5.3)                                                       *)
 SkeskPlan(ver, cipher, aead, hasEsk) ==
